@@ -114,7 +114,7 @@ ExpUpdate(m2) ==
 ApplyUpdate(m, o, e, step) ==
   IF m.phase = "stale" THEN R(m, [o EXCEPT !.dead = TRUE], Ok, 0) ELSE       \* (unspecified: pastify() again without a reset())
   IF ~CanUpdate(m) THEN R(m, o, ExcClass(FALSE, e, "update.exc", step), 0)
-  ELSE IF AnyUndefOn(m, e.s) THEN
+  ELSE IF AnyUndefOn(m, Full(m, e.s)) THEN
        \* some sub-formula has no defined value (inf - inf, 0 * inf, division by zero ...): Python either raises
        \* or propagates NaN in an order-dependent way; the README defines nothing here
        (IF e.exc \in ArithExc \cup {NoExc} THEN R(m, [o EXCEPT !.dead = TRUE], Ok, 1)
@@ -158,7 +158,10 @@ ApplyReset(m, o, e, step) ==
 
 ApplyEvaluate(m, o, e, step) ==
   IF AnyUndefOff(m, e.w, Len(e.ts)) THEN
-       (IF e.exc \in ArithExc \cup {NoExc} THEN R(m, [o EXCEPT !.dead = TRUE], Ok, 1)
+       \* (an evaluate() that raised leaves the object as it was: evaluate() is a function of its arguments - the next
+       \*  evaluate() is judged like any other; seed C19-g.  One that returned NaN-poisoned values is not examined further.)
+       (IF e.exc \in ArithExc THEN R(m, o, Ok, 1)
+        ELSE IF e.exc = NoExc THEN R(m, [o EXCEPT !.dead = TRUE], Ok, 1)
         ELSE R(m, [o EXCEPT !.dead = TRUE], F("evaluate.exc", step, "ok or arithmetic error", e.exc), 1))
   ELSE
   LET m2 == EvaluateF(m, e.w, e.ts)
